@@ -708,6 +708,44 @@ def gen_setstate(rng: Any, kind: str) -> list:
     return ["setstate", rng.choice(["other", f"anc:{lv}", f"anc:{lv + 3}"]), {}]
 
 
+def _peek(data: Any, path: str) -> Any:
+    cur = data
+    for seg in path.split("."):
+        if isinstance(cur, dict) and seg in cur:
+            cur = cur[seg]
+        elif isinstance(cur, list):
+            try:
+                cur = cur[int(seg)]
+            except (ValueError, IndexError):
+                return MISSING
+        else:
+            return MISSING
+    return cur
+
+
+def lookalike(rng: Any, v: Any) -> Any:
+    """a JSON value that compares equal to `v` in Python without being the same JSON value"""
+    if v is True:
+        return rng.choice([1, 1.0])
+    if v is False:
+        return rng.choice([0, 0.0])
+    if type(v) is int and abs(v) < 2 ** 50:
+        return bool(v) if v in (0, 1) and rng.random() < 0.6 else float(v)
+    if type(v) is float and v == int(v) and abs(v) < 2 ** 50:
+        return int(v)
+    if type(v) is list and v:
+        i = rng.randrange(len(v))
+        la = lookalike(rng, v[i])
+        if la is not MISSING:
+            return v[:i] + [la] + v[i + 1:]
+    if type(v) is dict and v:
+        k = rng.choice(list(v))
+        la = lookalike(rng, v[k])
+        if la is not MISSING:
+            return {kk: (la if kk == k else copy.deepcopy(x)) for kk, x in v.items()}
+    return MISSING
+
+
 def gen_op(rng: Any, kind: str, data: dict, have_snap: bool, allow_raise: bool = False) -> list:
     x = rng.random()
     if x < 0.30:
@@ -716,6 +754,11 @@ def gen_op(rng: Any, kind: str, data: dict, have_snap: bool, allow_raise: bool =
         return ["get", path, dflt]
     if x < 0.60:
         path = gen_path(rng, data, kind, True)
+        if rng.random() < 0.15 and (kind == "dict" or path.split(".")[0] == "a"):
+            # overwrite with a value that is `==`-equal in Python but a different JSON value (1/True, 0/False, 2/2.0)
+            la = lookalike(rng, _peek(data, path))
+            if la is not MISSING:
+                return ["set", path, la]
         return ["set", path, conforming_set_value(rng, kind, path)]
     if x < 0.66:
         return ["getstate"]
